@@ -383,7 +383,7 @@ CHECKS["C12"] = {
     "thorough": {"shards": 16, "checks": 4000, "timeout": 7200, "hang": 300},
     "rule": "built with -race (GORACE halt_on_error). A rapid-generated writer script (block / undo / Verify(remember) / re-read of its own serialization; 1 script in 12 contains one block adding 1100-1700 leaves, after which queries name hundreds of hashes; for a partial forest also "
             "Prune, Ingest and GetMissingPositions+VerifyPartialProof(remember=true)) on a full or partial MapPollard with generated TotalRows, and a query set holding every reader method at least once (GetRoots, GetStump, Prove x2, "
-            "Verify(remember=false), GetLeafPosition x2, GetLeafHashPositions, GetHash x2 (1-6 positions), GetMissingPositions, GetNumLeaves, GetTreeRows, Write (parsed), "
+            "Verify(remember=false), GetLeafPosition x2, GetLeafHashPositions, GetHash x2 (1-6 positions), GetMissingPositions, GetNumLeaves, GetTreeRows, Write (parsed), Write to a sink that fails after 40 bytes, "
             "VerifyPartialProof(remember=false)) with arguments resolved in a drawn between-steps state. Expected answers: a sequential replica run of the same script answers "
             "every query in every between-steps state. Two schedule generators: OWNED (2 of 3 cases): the verifPoint hook suspends the writer at a drawn (step, site, occurrence) "
             "inside its critical section; all queries are started during the pause, the writer is released after a 3 ms grace period; a query that RETURNS during the pause must "
